@@ -14,6 +14,26 @@ from .common import HarnessError, PropertyViolated, Tally, Violation, jsonable, 
 from .timeouts import CaseTimeout, time_limit
 
 
+def _pyhms_bucket(exc: BaseException):
+    """'Type@file:function' of the innermost pyhms frame of the traceback, or None if pyhms is not involved"""
+    import os
+    import traceback as _tb
+
+    try:
+        import pyhms
+
+        root = os.path.dirname(os.path.abspath(pyhms.__file__))
+    except Exception:  # noqa: BLE001
+        return None
+    inner = None
+    for fr in _tb.extract_tb(exc.__traceback__):
+        if os.path.abspath(fr.filename).startswith(root):
+            inner = fr
+    if inner is None:
+        return None
+    return f"{type(exc).__name__}@{os.path.relpath(inner.filename, root)}:{inner.name}"
+
+
 def base_settings(max_examples: int, **kw) -> settings:
     return settings(
         max_examples=max_examples,
@@ -128,6 +148,15 @@ def hyp_drive(
             except CaseTimeout:
                 tally.aborted["timeout"] = tally.aborted.get("timeout", 0) + 1
                 return
+            except (PropertyViolated, HarnessError):
+                raise
+            except Exception as e:  # noqa: BLE001
+                # pyhms raised on a generated input of a direct (non-run) tier: that is a finding about pyhms
+                # ("any valid input is handled"), not a harness error - unless the exception is ours
+                bucket = _pyhms_bucket(e)
+                if bucket is None:
+                    raise
+                vs = [Violation(prop, f"{prop}/raised/{bucket}", f"pyhms raised {type(e).__name__}: {e} on a generated valid input")]
             coll.handle(case, vs)
 
         wrapped = hypothesis.seed(seed + rnd * 15485863)(
